@@ -13,16 +13,24 @@
      HParkedDrain  stored in pending_drainers, Pending
      HDraining     draining its share of the table
      HDone         Exhausted
-     HAbandoned    a DOWNSTREAM operator of this partition's pipeline answered Exhausted (e.g. LIMIT
-                   reached): ExecutionStack clears the stack and finalizes only the operators after
-                   it, so this join is never executed nor finalized again in this partition
-                   (C04_stack_exhausted_ops_never_run_again, C04_stack_finalize_once_in_order).
-   `ab` says whether such early exhaustion can happen (a LIMIT / EXISTS above the join). *)
+     HAbandoning   a DOWNSTREAM operator of this partition's pipeline answered Exhausted (e.g. LIMIT
+                   reached) while this partition was probing: the join is never executed again
+                   (C04_stack_exhausted_ops_never_run_again); since commit 131551599 the stack holds an
+                   `AbandonOperator` instruction for it
+     HAbandoned    the AbandonOperator instruction ran: poll_finalize_execute was called (same critical
+                   section as a normal finalize: remaining_probers -= 1; if 0 drain_ready, wake drainers)
+                   but the partition never drains
+     HLost         the pending AbandonOperator was dropped because a SECOND operator further down
+                   answered Exhausted before it ran (the stack is cleared and next_to_finalize was
+                   already advanced: C04_stack_exhausted_finalizes_all_upstream_refuted); this is also
+                   exactly the behaviour of the stack before commit 131551599
+   `ab`: early exhaustion can happen (a LIMIT / EXISTS above the join);
+   `lose`: a pending abandon can be lost (two exhausting operators above the join). *)
 From Coq Require Import List Arith Bool.
 From GV Require Import lib.Lts.
 Import ListNotations.
 
-Inductive hph := HProbe | HParkedScan | HScan | HDrainChk | HParkedDrain | HDraining | HDone | HAbandoned | HErr.
+Inductive hph := HProbe | HParkedScan | HScan | HDrainChk | HParkedDrain | HDraining | HDone | HAbandoning | HAbandoned | HLost | HErr.
 
 Record hst := {
   hps : list hph;
@@ -36,57 +44,73 @@ Definition wake_drainers (p : hph) : hph := match p with HParkedDrain => HDrainC
 Definition scan_pollable (p : hph) : bool := match p with HProbe | HParkedScan => true | _ => false end.
 Definition drain_pollable (p : hph) : bool := match p with HDrainChk | HParkedDrain => true | _ => false end.
 
-Inductive hstep (ab : bool) : hst -> hst -> Prop :=
+Inductive hstep (ab lose : bool) : hst -> hst -> Prop :=
 (* build side: last inserter: scan_ready = true; pending_probers.wake_all(); pending_drainers.wake_all() *)
 | h_build_done s :
     sready s = false ->
-    hstep ab s {| hps := map wake_drainers (map wake_probers (hps s)); sready := true; dready := dready s;
+    hstep ab lose s {| hps := map wake_drainers (map wake_probers (hps s)); sready := true; dready := dready s;
                   rem_prob := rem_prob s |}
 (* poll_execute, Probing, local scan_ready false: [lock] test shared.scan_ready *)
 | h_scan_ready i p s :
     nth_error (hps s) i = Some p -> scan_pollable p = true -> sready s = true ->
-    hstep ab s {| hps := upd (hps s) i HScan; sready := sready s; dready := dready s; rem_prob := rem_prob s |}
+    hstep ab lose s {| hps := upd (hps s) i HScan; sready := sready s; dready := dready s; rem_prob := rem_prob s |}
 | h_scan_park i p s :
     nth_error (hps s) i = Some p -> scan_pollable p = true -> sready s = false ->
-    hstep ab s {| hps := upd (hps s) i HParkedScan; sready := sready s; dready := dready s; rem_prob := rem_prob s |}
+    hstep ab lose s {| hps := upd (hps s) i HParkedScan; sready := sready s; dready := dready s; rem_prob := rem_prob s |}
 (* poll_finalize_execute (input exhausted): Draining; [lock] remaining_probers.dec_by_one()?;
    if 0 { drain_ready = true; pending_drainers.wake_all() }; NeedsDrain *)
 | h_finalize_last i s :
     nth_error (hps s) i = Some HScan -> rem_prob s = 1 ->
-    hstep ab s {| hps := upd (map wake_drainers (hps s)) i HDrainChk; sready := sready s; dready := true;
+    hstep ab lose s {| hps := upd (map wake_drainers (hps s)) i HDrainChk; sready := sready s; dready := true;
                   rem_prob := 0 |}
 | h_finalize i s :
     nth_error (hps s) i = Some HScan -> 1 < rem_prob s ->
-    hstep ab s {| hps := upd (hps s) i HDrainChk; sready := sready s; dready := dready s;
+    hstep ab lose s {| hps := upd (hps s) i HDrainChk; sready := sready s; dready := dready s;
                   rem_prob := rem_prob s - 1 |}
 | h_finalize_err i s :        (* "Attempted to decrement 0" *)
     nth_error (hps s) i = Some HScan -> rem_prob s = 0 ->
-    hstep ab s {| hps := upd (hps s) i HErr; sready := sready s; dready := dready s; rem_prob := rem_prob s |}
+    hstep ab lose s {| hps := upd (hps s) i HErr; sready := sready s; dready := dready s; rem_prob := rem_prob s |}
 (* poll_execute, Draining, local drain_ready false: [lock] test drain_ready && scan_ready *)
 | h_drain_ready i p s :
     nth_error (hps s) i = Some p -> drain_pollable p = true -> dready s && sready s = true ->
-    hstep ab s {| hps := upd (hps s) i HDraining; sready := sready s; dready := dready s; rem_prob := rem_prob s |}
+    hstep ab lose s {| hps := upd (hps s) i HDraining; sready := sready s; dready := dready s; rem_prob := rem_prob s |}
 | h_drain_park i p s :
     nth_error (hps s) i = Some p -> drain_pollable p = true -> dready s && sready s = false ->
-    hstep ab s {| hps := upd (hps s) i HParkedDrain; sready := sready s; dready := dready s; rem_prob := rem_prob s |}
+    hstep ab lose s {| hps := upd (hps s) i HParkedDrain; sready := sready s; dready := dready s; rem_prob := rem_prob s |}
 | h_drain_done i s :
     nth_error (hps s) i = Some HDraining ->
-    hstep ab s {| hps := upd (hps s) i HDone; sready := sready s; dready := dready s; rem_prob := rem_prob s |}
-(* early exhaustion by a downstream operator while this partition is still probing *)
+    hstep ab lose s {| hps := upd (hps s) i HDone; sready := sready s; dready := dready s; rem_prob := rem_prob s |}
+(* early exhaustion by a downstream operator while this partition is still probing / draining *)
 | h_abandon i s :
     ab = true -> nth_error (hps s) i = Some HScan ->
-    hstep ab s {| hps := upd (hps s) i HAbandoned; sready := sready s; dready := dready s; rem_prob := rem_prob s |}
+    hstep ab lose s {| hps := upd (hps s) i HAbandoning; sready := sready s; dready := dready s; rem_prob := rem_prob s |}
 | h_abandon_draining i s :
     ab = true -> nth_error (hps s) i = Some HDraining ->
-    hstep ab s {| hps := upd (hps s) i HAbandoned; sready := sready s; dready := dready s; rem_prob := rem_prob s |}.
+    hstep ab lose s {| hps := upd (hps s) i HDone; sready := sready s; dready := dready s; rem_prob := rem_prob s |}
+(* AbandonOperator: poll_finalize_execute; its NeedsDrain answer is ignored *)
+| h_abandon_fin_last i s :
+    nth_error (hps s) i = Some HAbandoning -> rem_prob s = 1 ->
+    hstep ab lose s {| hps := upd (map wake_drainers (hps s)) i HAbandoned; sready := sready s; dready := true;
+                       rem_prob := 0 |}
+| h_abandon_fin i s :
+    nth_error (hps s) i = Some HAbandoning -> 1 < rem_prob s ->
+    hstep ab lose s {| hps := upd (hps s) i HAbandoned; sready := sready s; dready := dready s;
+                       rem_prob := rem_prob s - 1 |}
+| h_abandon_fin_err i s :
+    nth_error (hps s) i = Some HAbandoning -> rem_prob s = 0 ->
+    hstep ab lose s {| hps := upd (hps s) i HErr; sready := sready s; dready := dready s; rem_prob := rem_prob s |}
+(* the pending AbandonOperator is dropped by a second Exhausted further down *)
+| h_abandon_lost i s :
+    lose = true -> nth_error (hps s) i = Some HAbandoning ->
+    hstep ab lose s {| hps := upd (hps s) i HLost; sready := sready s; dready := dready s; rem_prob := rem_prob s |}.
 
 (* create_partition_push_states: remaining_probers.set(partitions) *)
 Definition hinit (n : nat) : hst :=
   {| hps := repeat HProbe n; sready := false; dready := false; rem_prob := n |}.
 
-Inductive hreach (ab : bool) (n : nat) : hst -> Prop :=
-| hr_init : hreach ab n (hinit n)
-| hr_step s s' : hreach ab n s -> hstep ab s s' -> hreach ab n s'.
+Inductive hreach (ab lose : bool) (n : nat) : hst -> Prop :=
+| hr_init : hreach ab lose n (hinit n)
+| hr_step s s' : hreach ab lose n s -> hstep ab lose s s' -> hreach ab lose n s'.
 
 Definition is_hprobe p := match p with HProbe => true | _ => false end.
 Definition is_hpscan p := match p with HParkedScan => true | _ => false end.
@@ -95,9 +119,11 @@ Definition is_hchk p := match p with HDrainChk => true | _ => false end.
 Definition is_hpdrain p := match p with HParkedDrain => true | _ => false end.
 Definition is_hdraining p := match p with HDraining => true | _ => false end.
 Definition is_hdone p := match p with HDone => true | _ => false end.
+Definition is_habing p := match p with HAbandoning => true | _ => false end.
 Definition is_haband p := match p with HAbandoned => true | _ => false end.
+Definition is_hlost p := match p with HLost => true | _ => false end.
 Definition is_herr p := match p with HErr => true | _ => false end.
 
 (* every partition's pipeline is through with the join *)
 Definition hall_done (s : hst) : Prop :=
-  count is_hdone (hps s) + count is_haband (hps s) = length (hps s).
+  count is_hdone (hps s) + count is_haband (hps s) + count is_hlost (hps s) = length (hps s).
